@@ -42,8 +42,17 @@ func VH_C02_MapStep() {
 	rootID := m.SlabID()
 	snap := vhSnapshotAll(logst)
 	n := len(model)
-	op := vhChoose("op", 5)
+	op := vhChoose("op", 6)
 	switch op {
+	case 5: // type change
+		vhAssert(vhTic(m.Type(), vTypeInfo{id: 42}), "type before")
+		err := m.SetType(vTypeInfo{id: 43})
+		vhAssert(err == nil, "set type: no error")
+		vhAssert(vhTic(m.Type(), vTypeInfo{id: 43}), "type after")
+		vhAssert(logst.stored[rootID], "type change recorded as dirty")
+		vhAssert(m.Count() == uint64(n), "type change keeps the content")
+		vhReach("step-done")
+		return
 	case 0: // Get / Has of an absent key (any digests)
 		k := vhNewKey(9999)
 		_, err := m.Get(vhCompare, vhHip, k)
